@@ -117,7 +117,7 @@ def run_table_unit(ex, unit, res):
     def on_end(ex, kind, r):
         res['paths'] += 1
         if kind == 'panic':
-            res['violations'].append({'key': f'mirx:iptable:panic:{r.msg[:60]}', 'desc': f'panic in {r.site}: {r.msg}', 'values': {}, 'unit': res['unit']})
+            res['violations'].append({'key': f'mirx:iptable:panic:{r.msg[:60]}', 'desc': f'panic in {r.site}: {r.msg}', 'values': ex.model_values(), 'unit': res['unit']})
         elif len(res['samples']) < 2:
             res['samples'].append(' ; '.join(r))
 
@@ -333,7 +333,7 @@ def run_gen_unit(ex, unit, res):
     def on_end(ex, kind, r):
         res['paths'] += 1
         if kind == 'panic':
-            res['violations'].append({'key': f'mirx:ipgen:panic:{r.msg[:60]}', 'desc': f'panic in {r.site}: {r.msg}', 'values': {}, 'unit': res['unit']})
+            res['violations'].append({'key': f'mirx:ipgen:panic:{r.msg[:60]}', 'desc': f'panic in {r.site}: {r.msg}', 'values': ex.model_values(), 'unit': res['unit']})
         elif len(res['samples']) < 2:
             res['samples'].append(' ; '.join(r))
 
@@ -382,6 +382,9 @@ def gen_units(tier):
         if ok_seq(seq) and (tier != 'quick' or (seq.count('block') <= 1 and seq.count('fetch_net') <= 1)):
             us.append({'ctor': 'new_sub', 'ops': list(seq)})
     us.append({'ctor': 'new_sub_no_ends', 'ops': ['fetch_ip', 'fetch_ip']})
+    # blocks only: the second block may cut two free ranges at once (the first one split the pool)
+    us.append({'ctor': 'new_sub', 'ops': ['block', 'block']})
+    us.append({'ctor': 'new_sub', 'ops': ['block', 'block', 'fetch_ip']} if tier == 'quick' else {'ctor': 'new_sub', 'ops': ['block', 'block', 'block']})
     return us
 
 
